@@ -23,6 +23,9 @@ type C20Case struct {
 	// Companions: further erroneous documents that other goroutines parse at the same time (each call
 	// must cite its own line whatever else is being parsed)
 	Companions []C20Doc `json:"companions,omitempty"`
+	// Latin1: the text is re-encoded at check time so that U+0080..U+00FF become single bytes (a document
+	// in a legacy encoding: not valid UTF-8); Pos is mapped accordingly. The JSON keeps the readable spelling.
+	Latin1 bool `json:"latin1,omitempty"`
 }
 
 type C20Doc struct {
@@ -234,7 +237,7 @@ func genC20(t *rapid.T) *C20Case {
 		// strings that a pre-processing pass might expand or strip: references to environment variables
 		// (the harness sets VERIF_NL to a three-line value), comment openers
 		if oneIn(t, 12, "expandable") {
-			return VStr([]string{"${VERIF_NL}", "$VERIF_NL", "a // b", "/* x", "${HOME}", "%VERIF_NL%"}[drawIdx(t, 6, "xs")]), true
+			return VStr([]string{"${VERIF_NL}", "$VERIF_NL", "a // b", "/* x", "${HOME}", "%VERIF_NL%", "caf\u00e9", "\u00ff\u00fe", "na\u00efve\n\u00e9"}[drawIdx(t, 9, "xs")]), true
 		}
 		return V{}, false
 	}}
@@ -331,7 +334,7 @@ func genC20(t *rapid.T) *C20Case {
 		// cannot happen by construction; make it visible if it does
 		panic("C20 generator failed to inject an error")
 	}
-	return &C20Case{Text: g.sb.String(), Pos: g.pos, ListRoot: root.K == KList, Kind: c20kindNames[kind], Depth: g.depthAt}
+	return &C20Case{Text: g.sb.String(), Pos: g.pos, ListRoot: root.K == KList, Kind: c20kindNames[kind], Depth: g.depthAt, Latin1: oneIn(t, 6, "latin1")}
 }
 
 // lineRe: the cited line is the number behind the LAST "on line" of the message (text echoed from the
@@ -339,6 +342,14 @@ func genC20(t *rapid.T) *C20Case {
 var lineRe = regexp.MustCompile(`on line (\d+)`)
 
 func CheckC20(c *C20Case, st *Stats) error {
+	if c.Latin1 && c.Pos >= 0 && c.Pos <= len(c.Text) {
+		cc := *c
+		cc.Text, cc.Pos = latin1(c.Text), len(latin1(c.Text[:c.Pos]))
+		if cc.Text != c.Text {
+			st.Count("legacy_encoding_document")
+		}
+		c = &cc
+	}
 	if err := checkC20Doc(c, st); err != nil {
 		return err
 	}
@@ -445,6 +456,6 @@ func checkC20Doc(c *C20Case, st *Stats, fileTag ...string) error {
 
 func init() {
 	Register("C20",
-		"a generated tree is rendered with drawn whitespace/newlines at every token boundary (LF, CRLF, blank lines, occasionally a raw newline inside a string), optional text with newlines before the root (multi-line block comments, line comments, references to a multi-line environment variable, any bracket but the one that opens the root, e.g. an '[INFO]' log prefix before an object) (occasionally 255-1000 blank lines, now and then 65535-131072), bare CR and CR LF layouts, and exactly one injected syntax error of a kind whose message cites a line (invalid literal in a list / as an object value, detected at its terminating delimiter; bad character where a key must start; bad character after a key; bad character after a nested container in an object), at a drawn nesting depth; the generator records the byte offset of the detecting character. Oracle: if the error text says 'on line N' (the last such phrase counts) then N == 1 + number of newline bytes before that offset; via ParseList, ParseObject and ParseFile. Non-trivial = at least one newline before the error and the error inside a nested container, or newlines in text before the root bracket. Distinct = distinct FNV-64a hash of the case JSON.",
+		"a generated tree is rendered with drawn whitespace/newlines at every token boundary (LF, CRLF, blank lines, occasionally a raw newline inside a string), optional text with newlines before the root (multi-line block comments, line comments, references to a multi-line environment variable, any bracket but the one that opens the root, e.g. an '[INFO]' log prefix before an object) (occasionally 255-1000 blank lines, now and then 65535-131072), bare CR and CR LF layouts, and exactly one injected syntax error of a kind whose message cites a line (invalid literal in a list / as an object value, detected at its terminating delimiter; bad character where a key must start; bad character after a key; bad character after a nested container in an object), at a drawn nesting depth; the generator records the byte offset of the detecting character. Oracle: if the error text says 'on line N' (the last such phrase counts) then N == 1 + number of newline bytes before that offset; via ParseList, ParseObject and ParseFile; one document in six is re-encoded to Latin-1 bytes (ill-formed UTF-8: usually rejected without a line, but if a line is cited it must be the right one). Non-trivial = at least one newline before the error and the error inside a nested container, or newlines in text before the root bracket. Distinct = distinct FNV-64a hash of the case JSON.",
 		GenC20, CheckC20)
 }
